@@ -1,8 +1,33 @@
 (* C14 — Solver helpers that build trees to a target meet that target.
-   Only statements + `exact`; proofs are in Grammar/FixedLenFacts.v.  Model: Grammar/FixedLen.v
+   Only statements + `exact`; proofs are in Grammar/FixedLenFacts.v, FixedLenCountMore.v,
+   FixedLenPruneMore.v, FixedLenInsertMore.v.  Model: Grammar/FixedLen.v
    (create_fixed_length_tree = cflt, compute_nullable_nonterminals = nullables, count = count_decide /
-   count_var / finish_candidate / few).  The model is tied to /repo by harness/c14.py. *)
+   count_var / finish_candidate / few).  The model is tied to /repo by harness/c14.py.
+
+   FULL (all inputs, no bounds):
+     cflt_sound / cflt_language / any nullable set / frame invariant        (create_fixed_length_tree)
+     count_acceptance_decides, count_true/false/var_sound                   (count, decision skeleton)
+     few_sound, count_result_sound, count_result_target_met                 (count, completion of a
+       candidate: find_expansion_without_needle never creates a needle node; the result has exactly
+       the candidate's needle count and no open leaf that reaches the needle)
+     count_insert_result_sound   the same for the candidates produced by the C13 model of insert_tree
+     curr_len_lower_bound, cflt_prune_sound_any_complete_set, closed/pruned step lemmas
+     cflt_termination_refuted    the search diverges on <a> ::= <a> | "x", n = 2, for every fuel and
+                                 every stream of random choices (reproduced on /repo: no return)
+   PARTIAL (guard K_empty_terminal g = false: no alternative contains the symbol ""):
+     nullables_complete_partial, cflt_prune_sound_partial, cflt_prune_initial_partial
+     cflt_prune_refuted          with the symbol "" a feasible start frame IS pruned (reproduced on /repo
+                                 with a hand-written canonical grammar; helpers.canonical never emits "")
+     cflt_terminates_partial     guard grow_okb g (nullables g) = true (every alternative strictly
+                                 increases curr_len or, keeping it, has no nonterminal): with fuel above
+                                 the computable bound fuel_bound the model never answers OutOfFuel.
+                                 The guard is sufficient, not necessary.
+   STILL MISSING: int_value_sound (extract_model_value_int_var is not modelled); an exact
+     characterisation of the grammars on which the search terminates; negate=True branches of count;
+     the heapq order of count's candidates. *)
+From ISLA Require Import Insert InsertFacts InsertSelfMore.
 From ISLA Require Import Grammar GrammarFacts TreeFacts FixedLen FixedLenFacts.
+From ISLA Require Import FixedLenCountMore FixedLenPruneMore FixedLenInsertMore FixedLenTermMore.
 From Coq Require Import ZArith.
 
 (* Fixed-length creation: whatever the grammar, the start nonterminal, the target length, the stream
@@ -85,14 +110,200 @@ Example C14_count_nonvacuous :
 Proof. exact count_decide_ex. Qed.
 Print Assumptions C14_count_nonvacuous.
 
-(* NOT PROVED (full statement kept visible) — count_result_sound:
-     forall reach fuel g needle cand c,
-       finish_candidate reach fuel g needle cand = FinTree c ->
-       count_nodes needle c = count_nodes needle cand /\ more_possible reach needle c = false
-   i.e. completing a candidate whose needle count already equals the target (replacing every
-   needle-reaching open leaf by the tree returned by find_expansion_without_needle) keeps the count
-   and leaves no open leaf that reaches the needle.  Missing: a proof that `few` returns trees without
-   inner needle nodes (induction over the DFS of expand_one_step products) and the bookkeeping of
-   several replace_path calls at disjoint leaves.  What is checked instead on every run: `few` is
-   compared functionally with find_expansion_without_needle, and every binding returned by count() is
-   accepted by meets_count (proved above to decide the property) and by wf_treeb. *)
+(* ---- count: completing a candidate whose needle count equals the target (count_result_sound) ---- *)
+
+(* find_expansion_without_needle: the returned tree keeps the label of the root leaf, has as many
+   needle nodes as that leaf (0 or 1: no needle node is created below the root), and none of its
+   open leaves reaches the needle.  shape_ok = representation invariant of Python trees
+   (children is None => no children). *)
+Theorem C14_few_sound : forall reach needle g fuel root r,
+  shape_ok root = true -> few reach fuel g needle root = FSome r ->
+  shape_ok r = true /\ lbl r = lbl root /\ count_nodes needle r = count_nodes needle root /\
+  (forall p s, subtree r p = Some s -> opn s = true -> reach (lbl s) needle = false).
+Proof. exact few_sound. Qed.
+Print Assumptions C14_few_sound.
+
+(* count_result_sound (was: stated, not proved).  For every reachability relation, grammar, needle,
+   fuel and candidate: a tree returned by the completion step has exactly the needle count of the
+   candidate (= the target, that is when the step runs) and no open leaf that reaches the needle.
+   Without shape_ok the statement is false of the model (an "open" node with needle children would
+   lose them), but such a value does not encode any Python DerivationTree. *)
+Theorem C14_count_result_sound : forall reach needle g fuel cand c,
+  shape_ok cand = true ->
+  finish_candidate reach fuel g needle cand = FinTree c ->
+  count_nodes needle c = count_nodes needle cand /\ more_possible reach needle c = false.
+Proof. exact finish_candidate_sound. Qed.
+Print Assumptions C14_count_result_sound.
+
+(* ... in the declarative vocabulary: the number of positions labelled needle is the target and no
+   open position has a label that reaches the needle *)
+Theorem C14_count_result_target_met : forall reach needle g fuel cand c,
+  shape_ok cand = true ->
+  finish_candidate reach fuel g needle cand = FinTree c ->
+  count_target_met reach needle (occurrences needle cand) c.
+Proof. exact finish_candidate_target_met. Qed.
+Print Assumptions C14_count_result_target_met.
+
+Example C14_count_result_nonvacuous :
+  shape_ok fc_cand = true /\ more_possible fc_reach ex_B fc_cand = true /\
+  finish_candidate fc_reach 10 ex_g ex_B fc_cand =
+    FinTree (Node ex_A 1%N false [Node ex_B 2%N false [Node [120]%N 3%N false []];
+                                  Node ex_A 4%N false []]).
+Proof. exact finish_candidate_ex. Qed.
+Print Assumptions C14_count_result_nonvacuous.
+
+(* the candidates are no longer arbitrary: for every candidate that the C13 model of insert_tree
+   returns (count() uses DIRECT_EMBEDDING | SELF_EMBEDDING, i.e. K_ctx m = false) the completion
+   step is sound, and the candidate contains the host's nodes and the inserted tree *)
+Theorem C14_count_insert_result_sound :
+  forall reach needle fuel g chain pb maxn m ins host rs cand c,
+  closed_g g -> chain_ok chain -> wf_tree g host -> wf_tree g ins -> uniq_ids host ins ->
+  K_ctx m = false ->
+  insert_tree g chain pb maxn m ins host = Ok rs -> In cand rs ->
+  finish_candidate reach fuel g needle cand = FinTree c ->
+  inserted g host ins cand /\
+  count_target_met reach needle (occurrences needle cand) c.
+Proof. exact count_insert_result_sound. Qed.
+Print Assumptions C14_count_insert_result_sound.
+
+Example C14_count_insert_nonvacuous :
+  closed_g InsertFacts.ex_g /\ chain_ok ex_chain /\ wf_tree InsertFacts.ex_g ex_host /\
+  wf_tree InsertFacts.ex_g ex_ins /\ uniq_ids ex_host ex_ins /\ K_ctx 3 = false /\
+  exists rs cand c,
+    insert_tree InsertFacts.ex_g ex_chain ex_pb 50 3 ex_ins ex_host = Ok rs /\
+    nth_error rs 0 = Some cand /\
+    finish_candidate ci_reach 50 InsertFacts.ex_g s1 cand = FinTree c /\
+    tree_seqb c cand = false /\ count_nodes s1 cand = 2 /\ count_nodes s1 c = 2.
+Proof. exact count_insert_nonvacuous. Qed.
+Print Assumptions C14_count_insert_nonvacuous.
+
+(* ---- create_fixed_length_tree: pruning (cflt_prune_sound) ---- *)
+
+(* `completes g t t'`: t' is t with every open leaf replaced by a closed derivation tree with the same
+   root label.  Completions of a frame's tree are closed derivation trees: *)
+Theorem C14_completions_are_trees : forall g t t',
+  wfo g t -> completes g t t' -> wf_tree g t' /\ is_openT t' = false.
+Proof. exact completes_wf. Qed.
+Print Assumptions C14_completions_are_trees.
+
+(* compute_nullable_nonterminals is complete: every nonterminal that is the root of a closed
+   derivation tree with empty string is in the set (fixpoint reached within |g| rounds).
+   PARTIAL: guard K_empty_terminal g = false. *)
+Theorem C14_nullables_complete_partial : forall g,
+  K_empty_terminal g = false ->
+  forall t, wf_tree g t -> is_openT t = false -> is_nt (lbl t) = true -> yield t = [] ->
+  mem (lbl t) (nullables g) = true.
+Proof. exact nullables_complete. Qed.
+Print Assumptions C14_nullables_complete_partial.
+
+(* lower bound: curr_len (= clen NU t by the frame invariant) never exceeds the string length of a
+   completion, for every set NU that contains all nonterminals deriving the empty string *)
+Theorem C14_curr_len_lower_bound : forall g NU,
+  NU_complete g NU ->
+  forall t t', wfo g t -> completes g t t' -> clen NU t <= length (yield t').
+Proof. exact clen_lower_bound. Qed.
+Print Assumptions C14_curr_len_lower_bound.
+
+(* `discards n fr`: the top frame is popped without being returned or expanded
+   (closed with curr_len <> n, or open with curr_len > n) — exactly these two steps of the loop: *)
+Theorem C14_discard_step : forall f g NU n fr st o,
+  discards n fr = true -> cflt_loop (S f) g NU n (fr :: st) o = cflt_loop f g NU n st o.
+Proof. exact cflt_loop_discards. Qed.
+Print Assumptions C14_discard_step.
+
+Theorem C14_keep_step : forall f g NU n t cl ls st o,
+  discards n (t, cl, ls) = false ->
+  cflt_loop (S f) g NU n ((t, cl, ls) :: st) o =
+  match ls with
+  | [] => Found t
+  | _ :: _ => match expand_frame g NU (t, cl, ls) o with
+              | Raise e => Err e
+              | Ok (fs, o') => cflt_loop f g NU n (fs ++ st) o'
+              end
+  end.
+Proof. exact cflt_loop_keeps. Qed.
+Print Assumptions C14_keep_step.
+
+(* cflt_prune_sound: every discarded stack entry has NO completion of length n. *)
+Theorem C14_cflt_prune_sound_any_complete_set : forall g NU A0 n t cl ls,
+  NU_complete g NU -> Inv g NU A0 (t, cl, ls) -> discards n (t, cl, ls) = true ->
+  forall t', completes g t t' -> length (yield t') <> n.
+Proof. exact prune_sound_with. Qed.
+Print Assumptions C14_cflt_prune_sound_any_complete_set.
+
+Theorem C14_cflt_prune_sound_partial : forall g A0 n t cl ls,
+  K_empty_terminal g = false ->
+  Inv g (nullables g) A0 (t, cl, ls) -> discards n (t, cl, ls) = true ->
+  forall t', completes g t t' -> length (yield t') <> n.
+Proof. exact prune_sound. Qed.
+Print Assumptions C14_cflt_prune_sound_partial.
+
+(* relative completeness in the one case where it is unconditional: if the start frame itself is
+   pruned, the answer is NotFound and there is no derivation tree of that length at all *)
+Theorem C14_cflt_prune_initial_partial : forall g A n fuel o,
+  K_empty_terminal g = false -> is_nt A = true -> n < nn (nullables g) A ->
+  cflt (S (S fuel)) g A n o = NotFound /\
+  forall t', wf_tree g t' -> closedb t' = true -> lbl t' = A -> length (yield t') <> n.
+Proof. exact prune_initial_sound. Qed.
+Print Assumptions C14_cflt_prune_initial_partial.
+
+(* the guard excludes exactly the refuted class: grammar <a> ::= [""] (the SYMBOL "", not the empty
+   alternative): <a> is missing from the nullable set, the start frame is pruned for n = 0 and
+   NotFound is returned, although <a>("") is a valid closed tree of length 0 *)
+Theorem C14_cflt_prune_refuted :
+  K_empty_terminal pr_g = true /\
+  Inv pr_g (nullables pr_g) ex_A (Node ex_A 0%N true [], 1, [([], ex_A)]) /\
+  discards 0 (Node ex_A 0%N true [], 1, [([], ex_A)]) = true /\
+  completes pr_g (Node ex_A 0%N true []) pr_t /\ length (yield pr_t) = 0 /\
+  (forall fuel o, cflt (S (S fuel)) pr_g ex_A 0 o = NotFound) /\
+  meets_length pr_g ex_A 0 pr_t = true.
+Proof. exact prune_refuted. Qed.
+Print Assumptions C14_cflt_prune_refuted.
+
+Example C14_cflt_prune_nonvacuous :
+  K_empty_terminal ex_g = false /\ nullables ex_g = [ex_A] /\
+  let fr := (Node ex_A 0%N false [Node ex_B 0%N true []; Node ex_A 0%N true []], 1,
+             [([0], ex_B); ([1], ex_A)]) in
+  Inv ex_g (nullables ex_g) ex_A fr /\ discards 0 fr = true.
+Proof. exact prune_nonvacuous. Qed.
+Print Assumptions C14_cflt_prune_nonvacuous.
+
+(* ---- termination ---- *)
+(* Full statement that one would like:  "if every nonterminal has a terminal expansion there is a
+   computable bound B(g, n) such that cflt fuel g A n o <> OutOfFuel for fuel >= B(g, n)".
+   REFUTED: on  <a> ::= <a> | "x"  with n = 2 the model runs out of fuel for EVERY fuel and EVERY
+   stream of random choices, i.e. create_fixed_length_tree does not return (the language of <a> is
+   {"x"}; NotFound would be the right answer).  Reproduced on /repo (design notes). *)
+Theorem C14_cflt_termination_refuted :
+  term_exps dv_g ex_A = [[dv_X]] /\ forall fuel o, cflt fuel dv_g ex_A 2 o = OutOfFuel.
+Proof. exact (conj dv_has_terminal_expansion cflt_diverges). Qed.
+Print Assumptions C14_cflt_termination_refuted.
+
+(* PARTIAL positive statement.  grow_okb g NU: for every alternative e of every nonterminal A,
+   nn NU A < sum of child_len over e, or (equal and e has no nonterminal) — every expansion strictly
+   increases the lower bound curr_len, or keeps it and closes the leaf.  Then the search terminates:
+   with more fuel than  fuel_bound (max #alternatives) ((n + 1 - nn A) * (max #nonterminals per
+   alternative) + 1)  the model never runs out of fuel, for every stream of random choices. *)
+Theorem C14_cflt_terminates_partial : forall g A n o fuel,
+  grow_okb g (nullables g) = true ->
+  fuel_bound (max_alts g) ((n + 1 - nn (nullables g) A) * max_width g + 1) < fuel ->
+  cflt fuel g A n o <> OutOfFuel.
+Proof. exact cflt_terminates. Qed.
+Print Assumptions C14_cflt_terminates_partial.
+
+(* the same for any set used as nullable set and any bounds M, W *)
+Theorem C14_cflt_with_terminates : forall g NU n M W,
+  grow_ok g NU -> (forall A, length (alts g A) <= M) ->
+  (forall A e, In e (alts g A) -> count_nt e <= W) -> 1 <= W ->
+  forall A o fuel, fuel_bound M ((n + 1 - nn NU A) * W + 1) < fuel ->
+  cflt_with fuel g NU A n o <> OutOfFuel.
+Proof. exact cflt_with_terminates. Qed.
+Print Assumptions C14_cflt_with_terminates.
+
+(* non-vacuity: the running example (nullable, recursive <a>) satisfies the guard; the diverging
+   grammar of C14_cflt_termination_refuted does not *)
+Example C14_cflt_terminates_nonvacuous :
+  grow_okb ex_g (nullables ex_g) = true /\ max_alts ex_g = 2 /\ max_width ex_g = 2 /\
+  grow_okb dv_g (nullables dv_g) = false.
+Proof. exact (conj (proj1 grow_ok_ex) (conj (proj1 (proj2 grow_ok_ex)) (conj (proj2 (proj2 grow_ok_ex)) eq_refl))). Qed.
+Print Assumptions C14_cflt_terminates_nonvacuous.
